@@ -183,6 +183,20 @@ class Recorder:
         self.chunks.append(bytes(data))
 
 
+def quiesce(rt, grid_mod):
+    """run what is due now, but never follow a never-ending request loop for long"""
+    try:
+        rt.steps = 0
+        rt.pump(until=None, max_steps=STEP_LIMIT, advance_time=False)
+    except grid_mod.Stuck:
+        rt.pending[:] = []
+        for dc in list(rt.clock.getDelayedCalls()):
+            dc.cancel()
+        rt._reset_eventual_queue()
+    except Exception:
+        pass
+
+
 def do_read(rt, grid_mod, node, off, size):
     """(bytes delivered to the consumer, 'ok' | 'error:<Exc>' | 'hang')"""
     from zope.interface import implementer, directlyProvides
@@ -211,11 +225,7 @@ def do_read(rt, grid_mod, node, off, size):
         for dc in list(rt.clock.getDelayedCalls()):
             dc.cancel()
         rt._reset_eventual_queue()
-    try:
-        rt.steps = 0
-        rt.settle()
-    except Exception:
-        pass
+    quiesce(rt, grid_mod)
     return b"".join(rec.chunks), end
 
 
